@@ -435,6 +435,26 @@ func runC03R5(c *eng.Ctx, r *eng.RuleCtx) {
 	checkLit(pkgCtrl+".(*kubernetesBindingsController).HandleEvent", "BindingExecutionInfo", "QueueName", func(info *types.Info, e ast.Expr) bool { return eng.IsField(info, e, kubeQueue) }, "link.BindingConfig.Queue")
 	checkLit(pkgCtrl+".(*scheduleBindingsController).HandleEvent", "BindingExecutionInfo", "QueueName", func(info *types.Info, e ast.Expr) bool { return eng.IsField(info, e, linkQN) }, "link.QueueName")
 	checkLit(pkgCtrl+".(*scheduleBindingsController).EnableScheduleBindings", "ScheduleBindingToCrontabLink", "QueueName", func(info *types.Info, e ast.Expr) bool { return eng.IsField(info, e, schedQueue) }, "config.Queue")
+	// one link - and so one queue name - per schedule binding: the registry is keyed by the binding's own id (two
+	// bindings of a hook may share a crontab and differ in their queue)
+	if en := r.NeedFunc(pkgCtrl + ".(*scheduleBindingsController).EnableScheduleBindings"); en != nil {
+		einfo := en.Pkg.TypesInfo
+		links := p.Field(pkgCtrl, "scheduleBindingsController", "ScheduleLinks")
+		idFld := extOrLocalField(p, "pkg/schedule_manager/types", "ScheduleEntry", "Id")
+		n, ok := 0, true
+		eng.InspectNoLit(en.Decl.Body, func(m ast.Node) bool {
+			if as, isA := m.(*ast.AssignStmt); isA && len(as.Lhs) == 1 {
+				if ix, isIx := ast.Unparen(as.Lhs[0]).(*ast.IndexExpr); isIx && eng.IsField(einfo, ix.X, links) {
+					n++
+					if idFld == nil || !eng.IsField(einfo, resolveLocal(einfo, en.Decl.Body, ix.Index), idFld) {
+						ok = false
+					}
+				}
+			}
+			return true
+		})
+		r.Check(ok && n > 0, en.Key+" one link per binding", en.Decl.Pos(), "ScheduleLinks[config.ScheduleEntry.Id] = link", "the schedule links are not keyed by the binding's own id: two bindings that share the key overwrite each other's link and the tasks of one of them never reach its queue")
+	}
 }
 
 // runOutsideQueueTasks is C03.R11, shared with C04.R7 and C14.R7 (a webhook run that swallows queued tasks also
